@@ -104,3 +104,113 @@ Proof.
   eexists. split; [exact S1|]. split; [exact S2|exact V1].
 Qed.
 End QuorumBls.
+
+(* ---- non-vacuity: concrete instances meeting the hypotheses of the main theorems ---------- *)
+
+Definition K7 := ZpS 7 (prime_gt0 7 prime_7).
+Definition z7 (v : Z) : ZpT 7 := zp_of 7 (prime_gt0 7 prime_7) v.
+
+Lemma zpT7_cases : forall k : ZpT 7,
+  k = z7 0 \/ k = z7 1 \/ k = z7 2 \/ k = z7 3 \/ k = z7 4 \/ k = z7 5 \/ k = z7 6.
+Proof.
+  intros k. pose proof (zpT_mod 7 k) as Hm.
+  pose proof (Z.mod_pos_bound (proj1_sig k) 7 ltac:(lia)) as Hb. rewrite Hm in Hb.
+  assert (Hc : (proj1_sig k = 0 \/ proj1_sig k = 1 \/ proj1_sig k = 2 \/ proj1_sig k = 3 \/
+               proj1_sig k = 4 \/ proj1_sig k = 5 \/ proj1_sig k = 6)%Z) by lia.
+  destruct Hc as [Hc|[Hc|[Hc|[Hc|[Hc|[Hc|Hc]]]]]].
+  - left. apply zpT_eq. rewrite Hc. reflexivity.
+  - right; left. apply zpT_eq. rewrite Hc. reflexivity.
+  - do 2 right; left. apply zpT_eq. rewrite Hc. reflexivity.
+  - do 3 right; left. apply zpT_eq. rewrite Hc. reflexivity.
+  - do 4 right; left. apply zpT_eq. rewrite Hc. reflexivity.
+  - do 5 right; left. apply zpT_eq. rewrite Hc. reflexivity.
+  - do 6 right. apply zpT_eq. rewrite Hc. reflexivity.
+Qed.
+
+Lemma zpT7_neq : forall a b : ZpT 7, proj1_sig a <> proj1_sig b -> a <> b.
+Proof. intros a b H E. apply H. rewrite E. reflexivity. Qed.
+
+Definition ex_xc (k : ZpT 7) : ZpT 7 := fmul K7 k k.
+Definition ex_yodd (k : ZpT 7) : bool := Z.odd (proj1_sig k).
+Definition ex_xover (_ : ZpT 7) : bool := false.
+Definition two (a b : Z) (i : nat) : ZpT 7 := match i with O => z7 a | S O => z7 b | _ => z7 0 end.
+Definition pair2 (a01 a10 : Z) (i j : nat) : ZpT 7 :=
+  match i, j with O, S O => z7 a01 | S O, O => z7 a10 | _, _ => z7 0 end.
+Definition ex_r := two 1 2.
+Definition ex_phi := two 1 1.
+Definition ex_a := two 2 3.
+Definition ex_zeta := two 1 6.
+Definition ex_sk (i : nat) := fadd K7 (ex_a i) (ex_zeta i).
+Definition ex_chi := pair2 1 2.
+Definition ex_cu := pair2 1 1.
+Definition ex_cv := pair2 1 1.
+Definition ex_inp : SignDkls.inputs :=
+  SignDkls.mk_inputs 2 ex_r ex_phi ex_sk ex_chi ex_cu ex_cv
+    (fun j i => fsub K7 (fmul K7 (ex_r i) (ex_chi j i)) (ex_cu i j))
+    (fun j i => fsub K7 (fmul K7 (ex_sk i) (ex_chi j i)) (ex_cv i j)).
+
+Lemma dkls_nonvacuous :
+  flaws K7 /\
+  (forall k, ex_xc (fopp K7 k) = ex_xc k) /\
+  (forall k, k <> f0 K7 -> ex_yodd (fopp K7 k) = negb (ex_yodd k)) /\
+  (forall k, ex_xover (fopp K7 k) = ex_xover k) /\
+  (forall i, SignDkls.in_sk ex_inp i = fadd K7 (ex_a i) (ex_zeta i)) /\
+  SignDkls.sum_over K7 (SignDkls.parties (SignDkls.in_n ex_inp)) ex_a = z7 5 /\
+  SignDkls.sum_over K7 (SignDkls.parties (SignDkls.in_n ex_inp)) ex_zeta = f0 K7 /\
+  SignDkls.vole_product K7 ex_inp /\
+  SignDkls.guard K7 ex_xc ex_inp (z7 1) (z7 5) /\
+  SignDkls.in_n ex_inp = 2%nat.
+Proof.
+  split; [exact ZpS_7_flaws|].
+  split; [intros k; apply zpT_eq;
+          destruct (zpT7_cases k) as [H|[H|[H|[H|[H|[H|H]]]]]]; subst k; vm_compute; reflexivity|].
+  split; [intros k Hk; destruct (zpT7_cases k) as [H|[H|[H|[H|[H|[H|H]]]]]]; subst k;
+          try (vm_compute; reflexivity); exfalso; apply Hk; apply zpT_eq; reflexivity|].
+  split; [reflexivity|].
+  split; [reflexivity|].
+  split; [apply zpT_eq; vm_compute; reflexivity|].
+  split; [apply zpT_eq; vm_compute; reflexivity|].
+  split.
+  { intros i j Hi Hj Hij. cbn [SignDkls.in_n ex_inp] in Hi, Hj.
+    assert (Hc : ((i = 0 /\ j = 1) \/ (i = 1 /\ j = 0))%nat) by lia.
+    destruct Hc as [[-> ->]|[-> ->]]; split; apply zpT_eq; vm_compute; reflexivity. }
+  split; [|reflexivity].
+  split; [apply zpT7_neq; vm_compute; discriminate|].
+  split; [apply zpT7_neq; vm_compute; discriminate|].
+  split.
+  { intros j Hj. cbn [SignDkls.in_n ex_inp] in Hj.
+    assert (Hc : (j = 0 \/ j = 1)%nat) by lia.
+    destruct Hc as [->| ->]; split; apply zpT7_neq; vm_compute; discriminate. }
+  split; apply zpT7_neq; vm_compute; discriminate.
+Qed.
+
+(* Lindell17: q = 7, N = 5000, two share components *)
+Definition ex17 : SignLindell17.inputs := SignLindell17.mk_inputs 2 3 [4; 10] [1; 2] 5 6 20.
+Lemma lindell17_nonvacuous :
+  prime 7 /\ (0 < 7)%Z /\ (0 <= SignLindell17.in_rho ex17 < 7 * 7)%Z /\
+  Forall (fun x => 0 <= x < 3 * 7)%Z (SignLindell17.in_x1 ex17) /\
+  SignLindell17.in_x1 ex17 <> [] /\
+  length (SignLindell17.in_lam ex17) = length (SignLindell17.in_x1 ex17) /\
+  SignLindell17.bound_ok 7 5000 (Z.of_nat (length (SignLindell17.in_x1 ex17))) = true /\
+  in_Zp 7 (SignLindell17.in_k1 ex17) /\ in_Zp 7 (SignLindell17.in_k2 ex17) /\
+  SignLindell17.in_k1 ex17 <> 0%Z /\ SignLindell17.in_k2 ex17 <> 0%Z.
+Proof.
+  split; [exact prime_7|]. split; [lia|]. split; [cbn; lia|].
+  split; [repeat constructor; cbn; lia|]. split; [discriminate|]. split; [reflexivity|].
+  split; [vm_compute; reflexivity|]. unfold in_Zp. cbn. repeat split; lia.
+Qed.
+
+(* Boldyreva: two holders, the second owns two rows; 2*3 + (1*4 + 1*4) = 14 = 0 ... use 1*3 + (1*1 + 1*1) = 5 *)
+Definition exh : list SignBls.holder :=
+  [SignBls.mk_holder [z7 3] [z7 1]; SignBls.mk_holder [z7 1; z7 1] [z7 1; z7 1]].
+Lemma boldyreva_nonvacuous :
+  SignBls.wf_holders exh /\ SignBls.recon K7 exh = z7 5 /\ z7 5 <> f0 K7 /\
+  (forall h, In h exh -> forall l, In l (SignBls.h_rows h) -> l <> f0 K7).
+Proof.
+  split; [repeat constructor; discriminate|].
+  split; [apply zpT_eq; vm_compute; reflexivity|].
+  split; [apply zpT7_neq; vm_compute; discriminate|].
+  intros h [<-|[<-|[]]] l Hl; cbn in Hl.
+  - destruct Hl as [<-|[]]. apply zpT7_neq; vm_compute; discriminate.
+  - destruct Hl as [<-|[<-|[]]]; apply zpT7_neq; vm_compute; discriminate.
+Qed.
